@@ -83,6 +83,9 @@ pub fn run_cli(args: Vec<String>) {
         "unsafe" => suites::unsafe_mode(&mut rng, count, &mut out),
         "c13" => suites::c13(&mut rng, count, &mut out),
         "jitgen" => suites::jitgen(&mut rng, count, &mut out),
+        "faults" => suites::faults(&mut rng, count, &mut out),
+        "f6search" => suites::f6search(&mut rng, count, &mut out),
+        "jitrun" => suites::jitrun(&mut rng, count, &mut out),
         "irecho" => suites::irecho(&mut rng, count, &mut out),
         "sv" => dsuites::smallvec(&mut rng, count, &mut out),
         "expr" => dsuites::expr(&mut rng, count, &mut out),
